@@ -311,6 +311,45 @@ def job_inverter_address(j):
     return n, out
 
 
+def job_entry_address(j):
+    """The package's entry points - connect() with and without a family / an address, discover() - against a simulated
+    inverter of each family: the requests that reach the inverter of the family found carry the configured address, or the
+    family's default (0xF7 for ET and ES, 0x7F for DT) when none was configured; the object that comes back goes on using it."""
+    from ..configs import make_rig
+    fam, how, addr, port = j
+    world.reset()
+    g = world.goodwe
+    cfg = dict(family=fam, tag={'ET': 'ETU', 'DT': 'DTU', 'ES': 'ESU'}[fam], power=5000, refused=(), battery_mode=2, comm_addr=addr)
+    r = make_rig(cfg, 'udp' if port == 8899 else 'tcp', fill=lambda a: 1)
+
+    async def main():
+        try:
+            if how == 'discover':
+                inv = await g.discover('10.0.0.2', port, 1, 0)
+            elif how == 'connect':
+                inv = await g.connect('10.0.0.2', port, None, addr, 1, 0)
+            else:
+                inv = await g.connect('10.0.0.2', port, fam, addr, 1, 0)
+            n0 = len(r.dev.log)
+            await inv.read_runtime_data()
+            return type(inv).__name__, n0
+        except g.InverterError as e:
+            return 'InverterError', str(e)[:60]
+    r.loop.kern.tx_cap = 4000
+    st, res = r.loop.run(main())
+    want = addr or (0x7F if fam == 'DT' else 0xF7)
+    out = []
+    own = [q['unit'] for q in r.dev.log if 'unit' in q]
+    name = f'{how}(port={port}' + (f', comm_addr={addr:#x}' if addr else '') + ')'
+    if st != 'done' or res[0] != fam:
+        out.append((f'unit-is-the-configured-address/{fam}/entry-point:{how}', f'{name} against a {fam} inverter listening on {want:#x}: {str(res)[:80]} '
+                                                                               f'(addresses seen in Modbus requests: {sorted(set(own))})'))
+    elif fam != 'ES' and any(u != want for u in own[res[1]:]):
+        out.append((f'unit-is-the-configured-address/{fam}/entry-point:{how}', f'{name}: the poll of the object that came back carries '
+                                                                               f'{sorted(set(own[res[1]:]))} instead of {want:#x}'))
+    return len(r.dev.log), out
+
+
 def run_unit_policy(tr, ka, unit, answers_from):
     """The communication address in the requests is the configured one, whatever address the answers come from (another
     unit answering, AA55-protocol answers 'AA55 7F C0 ..' between Modbus requests on an ES).  Every command is built by the
@@ -517,6 +556,15 @@ def run(tier, seed, rep):
         novl += k
         for key, addr, cause in res:
             rep.add(key, key.split('/')[0], dict(part='inverter-address', family=key.split('/')[1], addr=addr), dict(cause=cause, comm_addr=addr))
+    entry_jobs = [(fam, how, addr, port) for fam in ('ET', 'DT', 'ES') for port in ((8899, 502) if fam != 'ES' else (8899,))
+                  for how, addrs in (('discover', (0,)), ('connect', (0,)), ('connect-family', (0, 0x11, 0xFA)))
+                  for addr in addrs if not (how == 'discover' and port == 502)]
+    # (connect() WITHOUT a family but WITH an address is not in the list: it hands over to discover(), which has no address
+    # parameter - the address is dropped and the family defaults are probed; noted in DESIGN section 6, not a C03 matter)
+    for k, res in pmap(job_entry_address, entry_jobs):
+        novl += k
+        for key, cause in res:
+            rep.add(key, key.split('/')[0], dict(part='entry-address', family=key.split('/')[1], how=key.split(':')[-1]), dict(cause=cause))
     for tr in ('udp', 'tcp'):
         for ka in (False, True):
             for unit in (0xF7, 0x7F, 0x11):
@@ -604,6 +652,13 @@ def replay(r):
         vio = {}
         one(vio, r['ctor'], tuple(a))
         return dict(violations=[(k, v[0]['detail']) for k, v in vio.items()])
+    if r['part'] == 'entry-address':
+        out = []
+        for fam, how, addr, port in [(r['family'], r['how'], a, p_) for a in (0, 0x11, 0xFA) for p_ in (8899, 502)]:
+            if (how != 'connect-family' and addr) or (fam == 'ES' and port == 502) or (how == 'discover' and port == 502):
+                continue
+            out += job_entry_address((fam, how, addr, port))[1]
+        return dict(violations=out)
     if r['part'] == 'inverter-address':
         k, res = job_inverter_address((r['family'], [r['addr']]))
         return dict(requests=k, violations=[(a, c) for a, _, c in res])
